@@ -32,6 +32,9 @@ def main():
     a = ap.parse_args()
     wt = '/tmp/tryseed-%s-%d' % (a.name, os.getpid())
     sh('git -C /repo worktree add --detach %s HEAD -f' % wt)
+    # a private copy of the compiled Coq project: the run regenerates coq/Gen from the scratch tree and must not disturb checks of /repo
+    coqcopy = '/tmp/tryseed-coq-%s-%d' % (a.name, os.getpid())
+    sh('rsync -a --exclude Cases --exclude ".*.lock" %s/coq/ %s/' % (V, coqcopy))
     meta = dict(property=a.prop, name=a.name, needs=a.needs, why=a.why, ran=[], repo_head=sh('git -C /repo rev-parse --short HEAD').stdout.strip())
     try:
         env = 'PYTHONPATH=%s PYTHONHASHSEED=0' % wt
@@ -56,7 +59,7 @@ def main():
         results = {}
         for p in [a.prop] + [x for x in a.also.split(',') if x]:
             t0 = time.time()
-            r = sh('cd %s && VERIF_REPO=%s ./check %s' % (V, wt, p))
+            r = sh('cd %s && VERIF_REPO=%s VERIF_COQ=%s ./check %s' % (V, wt, coqcopy, p))
             lines = [l for l in r.stdout.splitlines() if l.startswith(('VIOLATION', 'OK ', 'KNOWN-FINDING'))]
             results[p] = dict(exit=r.returncode, lines=[l[:300] for l in lines if not l.startswith('KNOWN')], wall=round(time.time() - t0, 1))
             viol = [l for l in lines if l.startswith('VIOLATION')]
@@ -91,8 +94,7 @@ def main():
             print(' ', p, 'exit', rr['exit'], 'failing_inputs', rr.get('n_failing_inputs'), 'broken', rr.get('broken'), '| first:', str(fi.get('what'))[:140])
     finally:
         sh('git -C /repo worktree remove --force %s' % wt)
-        # regenerate coq/Gen from the real repository so later runs start from a clean state
-        sh('cd %s && PYTHONPATH=/repo:%s/translator /venv/bin/python -W ignore translator/py2coq.py --all' % (V, V))
+        shutil.rmtree(coqcopy, ignore_errors=True)
     return 0
 
 
